@@ -26,7 +26,7 @@ import uuid
 from harness import gen_collections as G
 
 KINDS = ["tx", "cds", "feat", "var", "gene", "fc", "vc", "ac"]
-PARENTS = ["none", "bare", "chrom", "chromnoid", "chunk", "chunkrev"]
+PARENTS = ["none", "bare", "nameonly", "chrom", "chromnoid", "chunk", "chunkrev"]
 PROFILES = ["plain", "adv", "advkey", "mixed", "sparse"]
 GENOME_LEN = 160
 SEQNAME = "chr1"
@@ -324,6 +324,8 @@ def make_parent(ps):
         return None
     if k == "bare":
         return Parent(id=ps["seqname"], sequence_type=SequenceType.CHROMOSOME)
+    if k == "nameonly":
+        return Parent(id=ps["seqname"])          # a parent that only names its sequence: no type, no sequence
     if k == "chunkrev":
         from inscripta.biocantor.io.parser import seq_chunk_to_parent
         from inscripta.biocantor.location.strand import Strand
